@@ -223,6 +223,37 @@ func c22(c *core.Ctx) {
 				c.Ob("C22.assert", fname(f)+"·PublicKey.("+ssax.TypeName(ta.AssertedType)+")", pos(c, ta), ta.CommaOk, "comma-ok form: "+boolStr(ta.CommaOk)+" — a peer certificate with a non-RSA key panics otherwise")
 			}
 		}
+		// the conversion may be left to a library helper (uapolicy.PublicKey …): its assertions on a certificate's
+		// PublicKey count as this function's
+		seenH := map[*ssa.Function]bool{f: true}
+		frontier := []*ssa.Function{f}
+		for depth := 0; depth < 2; depth++ {
+			var next []*ssa.Function
+			for _, g := range frontier {
+				for _, call := range ssax.Calls(g) {
+					h := call.Common().StaticCallee()
+					if h == nil || seenH[h] || len(h.Blocks) == 0 || (shortOf(h) != "uasc" && shortOf(h) != "uapolicy") {
+						continue
+					}
+					seenH[h] = true
+					next = append(next, h)
+					for _, hb := range h.Blocks {
+						for _, in := range hb.Instrs {
+							ta, ok := in.(*ssa.TypeAssert)
+							if !ok {
+								continue
+							}
+							if ld := loadedField(ta.X); ld.f == nil || ld.f.Name() != "PublicKey" {
+								continue
+							}
+							n++
+							c.Ob("C22.assert", fname(f)+"·"+fname(h)+"·PublicKey.("+ssax.TypeName(ta.AssertedType)+")", pos(c, ta), ta.CommaOk, "in "+fname(h)+", called with the peer's certificate: comma-ok form: "+boolStr(ta.CommaOk)+" — a peer certificate with a non-RSA key panics otherwise")
+						}
+					}
+				}
+			}
+			frontier = next
+		}
 		if n == 0 {
 			c.Ob("C22.assert", fname(f)+"·no type assertion", c.P.Pos(f.Pos()), true, "no assertion on the certificate key")
 		}
